@@ -120,12 +120,14 @@ def modelCreateConn : List String := [
   "return"
 ]
 
-/-- the reading routine's `switch err`: EOF is answered with a `Reconnect` only when `keyAfterHangup` says so -/
+/-- the reading routine's `switch err`: EOF is answered with a `Reconnect` only when `keyAfterHangup` says so
+(`reconnectAfterHangup`, D31: the `Reconnect` under the connection lock, skipped when somebody else has already
+replaced the connection this routine was reading) -/
 def modelReaderCases : List String := [
   "before switch: if errors.As(err, &broken): do m.warnError(broken); set err = io.EOF",
   "case nil: ",
   "case context.Canceled: return ",
-  "case io.EOF: if !m.keyAfterHangup(ctx): return ; set err = m.Reconnect(); if err != nil: do m.warnError(errors.Wrap(err, \"can't reconnect\"))",
+  "case io.EOF: if !m.keyAfterHangup(ctx): return ; set err = m.reconnectAfterHangup(ctx); if err != nil: do m.warnError(errors.Wrap(err, \"can't reconnect\"))",
   "default: do m.warnError(err)"
 ]
 
